@@ -9,11 +9,11 @@ rsync -a --delete --exclude harness/target --exclude work --exclude .git --exclu
 sed -i "s#path = \"/repo\"#path = \"$T/repo\"#" $T/verif/harness/Cargo.toml
 export RSV_REPO=$T/repo RSV_VERIF=$T/verif
 cd $T/verif && ./check --setup >/dev/null 2>&1
-ids="$@"; [ -z "$ids" ] && ids=$(ls /verif/seeded)
+ids="$@"; [ -z "$ids" ] && ids=$(ls ${SEEDED_DIR:-/verif/seeded})
 : > $out
 for id in $ids; do
   p=${id:0:3}
   echo "== $id" >> $out
-  TIER=${TIER:-quick} $T/verif/tools/try_seeded.sh /verif/seeded/$id/patch.diff $p 2>&1 | grep -v "^\[build\]" >> $out
+  TIER=${TIER:-quick} $T/verif/tools/try_seeded.sh ${SEEDED_DIR:-/verif/seeded}/$id/patch.diff $p 2>&1 | grep -v "^\[build\]" >> $out
 done
 echo MATRIX-DONE >> $out
